@@ -81,10 +81,11 @@ Definition idom (sd : gmap string (gset string)) (n : string) : option string :=
   let s := sdom_of sd n in
   (λ p, p.2) <$> list_find (λ d, bool_decide (set_Forall (λ e, e = d ∨ e ∈ sdom_of sd d) s)) (elements s).
 (* dominator tree: children lists *)
-Definition kids_table (co : circuit) (o : string) : gmap string (list string) :=
-  let sd := sdom_table (avoid_table co o) in
+Definition kids_of (co : circuit) (o : string) (sd : gmap string (gset string)) : gmap string (list string) :=
   let idoms : list (string * string) := omap (λ n, (λ d, (n, d)) <$> idom sd n) (elements (dom co ∖ {[o]})) in
   map_imap (λ p _, Some ((λ q, q.1) <$> filter (λ q, q.2 = p) idoms)) co.
+Definition kids_table (co : circuit) (o : string) : gmap string (list string) :=
+  kids_of co o (sdom_table (avoid_table co o)).
 
 (* the inner `fanins` queue for one dominator-tree child: a chain of single children is absorbed;
    a node with more than one child closes the chain and starts its own supergate *)
@@ -103,10 +104,33 @@ Fixpoint grow_all (fuel : nat) (kids : gmap string (list string)) (frontier : li
   match fuel with O => [] | S k =>
     match frontier with [] => [] | node :: rest =>
       let r := grow fuel kids node in (node, r.1) :: grow_all k kids (rest ++ r.2) end end.
-Definition cone_supergates (L : circuit) (o : string) : list Circuit :=
+(* ---- certificates.  The searches and the queues above run on fuel; instead of proving the fuel sufficient, their
+   results are CHECKED (cheap), and the model has no value (OutOfFuel) when a check fails.  The correspondence run
+   shows this never happens; the proofs use only the checked facts and the leastness of the searched sets. ---- *)
+Definition fi_closed (L : circuit) (S : gset string) : Prop := set_Forall (λ n, fanin L n ⊆ S) S.
+Definition up_set (L : circuit) (a : string) : gset string := tfi_star L a.
+Definition up_ok (L : circuit) (a : string) : Prop := a ∈ up_set L a ∧ fi_closed L (up_set L a).
+(* every avoid set contains the output and is closed under the search-graph successors other than the removed node *)
+Definition avoid_ok (co : circuit) (o : string) (av : gmap string (gset string)) : Prop :=
+  map_Forall (λ d A, d = o ∨ (o ∈ A ∧ set_Forall (λ x, Forall (λ y, y = d ∨ y ∈ A) (usucc co o x)) A)) av.
+(* a grown supergate (root r, node set S): r is the output or has more than one tree child; S contains r, the children of
+   r and of every absorbed single-child node; every other member hangs below a member and is strictly deeper than r *)
+Definition absorbs (kids : gmap string (list string)) (x : string) : Prop :=
+  ¬ (sg_split_above < length (adj_of kids x)) ∧ length (adj_of kids x) = sg_absorb_at.
+Definition grow_ok (o : string) (sd : gmap string (gset string)) (kids : gmap string (list string)) (p : string * gset string) : Prop :=
+  p.1 ∈ p.2 ∧ (p.1 = o ∨ sg_split_above < length (adj_of kids p.1)) ∧
+  set_Forall (λ x, (x = p.1 ∨ absorbs kids x) → Forall (λ c, c ∈ p.2) (adj_of kids x)) p.2 ∧
+  set_Forall (λ x, x = p.1 ∨ (size (sdom_of sd p.1) < size (sdom_of sd x) ∧
+                              set_Exists (λ q, x ∈ adj_of kids q ∧ (q = p.1 ∨ adj_of kids q = [x])) p.2)) p.2.
+
+Definition cone_supergates (L : circuit) (o : string) : option (list Circuit) :=
   let co := cone L o in
-  let kids := kids_table co o in
-  (λ p, mk_sg co p.1 p.2) <$> grow_all (S (size co)) kids [o].
+  let av := avoid_table co o in
+  let sd := sdom_table av in
+  let kids := kids_of co o sd in
+  let gs := grow_all (S (size co)) kids [o] in
+  if bool_decide (up_ok L o ∧ avoid_ok co o av ∧ Forall (grow_ok o sd kids) gs)
+  then Some ((λ p, mk_sg co p.1 p.2) <$> gs) else None.
 
 (* ================================================================ all cones, duplicates, minimal cover *)
 (* supergate_circuits keyed by node set (repair of the duplicate-cover defect): the same node set found in
@@ -149,8 +173,9 @@ Definition has_bb (L : circuit) : bool :=
 
 Definition minimal_supergates (L : circuit) : res (list (string * Circuit)) :=
   if has_bb L then Raise NotImplementedError else
-  match dedupe (mjoin (cone_supergates L <$> elements (outputs L))) [] with None => BadOrder | Some all =>
-  match keyed (minimal_cover all) with None => BadOrder | Some m => Ok m end end.
+  match mapM (cone_supergates L) (elements (outputs L)) with None => OutOfFuel | Some per_cone =>
+  match dedupe (mjoin per_cone) [] with None => BadOrder | Some all =>
+  match keyed (minimal_cover all) with None => BadOrder | Some m => Ok m end end end.
 
 (* supergates(c) with L = limit_fanin(c, 2) *)
 Definition supergates (L : circuit) : res (list Circuit) :=
@@ -193,10 +218,6 @@ Definition supercircuit (name : string) (L : circuit) : res (Circuit * list (str
 (* ================================================================ the specification, executable *)
 (* a set that contains a and is closed under fan-in contains everything that reaches a: the checkers
    compute such a set and CHECK the closure, so their verdict does not rest on the search above *)
-Definition fi_closed (L : circuit) (S : gset string) : Prop := set_Forall (λ n, fanin L n ⊆ S) S.
-Definition up_set (L : circuit) (a : string) : gset string := tfi_star L a.
-Definition up_ok (L : circuit) (a : string) : Prop := a ∈ up_set L a ∧ fi_closed L (up_set L a).
-
 Definition shape_ok (L : circuit) (sg : Circuit) : Prop :=
   size (outputs (c_g sg)) = 1 ∧
   set_Forall (λ n, n_ty <$> c_g sg !! n = n_ty <$> L !! n ∧ fanin (c_g sg) n = fanin L n) (gates (c_g sg)).
